@@ -21,12 +21,12 @@ RULE = ("case = one generated history (quick <= 9 revisions + 3 interleaved step
         "revno map, dotted round trips for every revision in the ancestry, iter_merge_sorted_revisions, and specs N, -N, revno:, a.b.c, revid:, "
         "before:, last:, tag:, ancestor:, mainline:, ranges; one evaluation = one query judged; non-trivial = history has a merge; "
         "distinct = (query form, outcome class, mainline/merged)")
-CASES = {"quick": 64, "thorough": 900}
+CASES = {"quick": 48, "thorough": 900}
 BUDGET_S = {"quick": 30, "thorough": 780}
 MIN_EVALS = {"quick": 3000, "thorough": 200000}
 FLOORS = {"quick": {"get_rev_id": 200, "id_to_revno": 200, "revno_map": 30, "dotted_roundtrip": 300, "merge_sorted": 30,
                     "spec_number": 200, "spec_negative": 100, "spec_dotted": 20, "spec_revid": 100, "spec_before": 100,
-                    "spec_last": 100, "spec_tag": 10, "spec_ancestor": 10, "spec_mainline": 60, "same_object_after_commit": 30},
+                    "spec_last": 100, "spec_tag": 10, "spec_ancestor": 10, "spec_mainline": 60, "same_object_after_commit": 15},
           "thorough": {"get_rev_id": 20000, "id_to_revno": 20000, "revno_map": 2000, "dotted_roundtrip": 30000, "merge_sorted": 2000,
                        "spec_number": 20000, "spec_negative": 10000, "spec_dotted": 3000, "spec_revid": 10000, "spec_before": 10000,
                        "spec_last": 10000, "spec_tag": 1000, "spec_ancestor": 1000, "spec_mainline": 6000,
@@ -117,7 +117,7 @@ class Battery:
 
     def fail(self, key, msg, **d):
         d.update(phase=self.phase, format=self.hist.fmt, shapes=self.hist.shapes, log=self.hist.log[-30:])
-        self.ctx.fail(key, msg, d)
+        self.ctx.fail(("remote:" if self.phase.startswith("remote") else "") + key, msg, d)
 
     def ev(self, form, outcome, extra=None):
         self.ctx.note((form, outcome, extra), nontrivial=self.merged,
@@ -445,6 +445,53 @@ class Battery:
                 self.fail("spec:range:open-ended", "%r -> %r" % (s, specs), spec=s)
 
 
+# ------------------------------------------------------------------ remote branch, in process
+
+class PipeServer:
+    """The real smart server medium serving hist.root over two os.pipe()s, the real client medium on the other end."""
+
+    def __init__(self, root):
+        import threading
+
+        from breezy.bzr.smart import medium
+        from breezy.transport import get_transport
+        from breezy.transport import remote as tremote
+
+        c2s_r, c2s_w = os.pipe()
+        s2c_r, s2c_w = os.pipe()
+        self.files = [os.fdopen(c2s_r, "rb", 0), os.fdopen(s2c_w, "wb", 0), os.fdopen(s2c_r, "rb", 0), os.fdopen(c2s_w, "wb", 0)]
+        srv = medium.SmartServerPipeStreamMedium(self.files[0], self.files[1], get_transport(root), timeout=120)
+        self.thread = threading.Thread(target=self._serve, args=(srv,), daemon=True)
+        self.thread.start()
+        self.client = medium.SmartSimplePipesClientMedium(self.files[2], self.files[3], "bzr://c22/")
+        self.transport = tremote.RemoteTransport("bzr://c22/", medium=self.client)
+
+    @staticmethod
+    def _serve(srv):
+        try:
+            srv.serve()
+        except Exception:  # noqa: BLE001  pipe closed under it at the end of the case
+            pass
+
+    def open_branch(self, name):
+        from breezy.controldir import ControlDir
+
+        return ControlDir.open_from_transport(self.transport.clone(name)).open_branch()
+
+    def close(self):
+        for f in (self.files[3], self.files[2]):
+            try:
+                f.close()
+            except Exception:  # noqa: BLE001
+                pass
+        self.thread.join(5)
+        for f in self.files[:2]:
+            try:
+                f.close()
+            except Exception:  # noqa: BLE001
+                pass
+
+
 # ------------------------------------------------------------------ the case
 
 def _edit_and_commit(ctx, hist, name, wt, g, tag):
@@ -576,6 +623,17 @@ def case(ctx):
     fresh = Branch.open(hist.trees[subject])
     ctx.count("fresh_object")
     battery(fresh, tip, "fresh-unlocked")
+    if ctx.tier == "thorough" and rng.random() < 0.3:
+        # the same battery through a RemoteBranch (smart server and client media in this process, over pipes)
+        ps = PipeServer(hist.root)
+        try:
+            rb = ps.open_branch(subject)
+            ctx.count("remote_battery")
+            ctx.hist("remote:" + type(rb).__name__)
+            with rb.lock_read():
+                battery(rb, tip, "remote-readlocked")
+        finally:
+            ps.close()
     if rng.random() < 0.5 and len(names) > 1:
         other = rng.choice([nm for nm in names if nm != subject])
         ob = Branch.open(hist.trees[other])
